@@ -134,4 +134,33 @@ impl NewlineCache {
         proof { lemma_feed_done(old(self), self, src, t0, t1, n0 as int); }
     }
 }
+impl NewlineCache {
+    pub fn new() -> (r: NewlineCache)
+        ensures wf(&r), // OBL: C19.new.table_starts_sorted_from_zero
+            forall|t: &Src| t.slen() == 0 ==> #[trigger] describes(&r, t), // OBL: C19.new.empty_table_describes_the_empty_text
+    {
+        //@probe
+        //@body file=cfgrammar/src/lib/newlinecache.rs fn=new
+        //@rule n=1 `^(\s*)Self \{$` => `\1NewlineCache {`
+        //@endbody
+    }
+
+    //@ctx from_str: the text fits in memory (its length is at most isize::MAX)
+    fn from_str(s: &Src) -> (r: Result<NewlineCache, ()>)
+        requires s.slen() <= isize::MAX, s.is_boundary(0),
+        ensures r matches Ok(c) && wf(&c) && describes(&c, s), // OBL: C19.from_str.table_describes_the_whole_text
+    {
+        //@probe
+        let ghost e_ = arbitrary_empty();
+        proof { assert(concat(&e_, s, s)); }
+        //@body file=cfgrammar/src/lib/newlinecache.rs fn=from_str
+        //@rule n=1 `let mut x = Self::new\(\);` => `let mut x = NewlineCache::new();`
+        //@rule n=1 `x\.feed\(s\);` => `x.feed(s, Ghost(&e_), Ghost(s));`
+        //@endbody
+    }
+}
+// some empty text (the model needs one to start from)
+pub uninterp spec fn spec_empty() -> Src;
+#[verifier::external_body] pub proof fn axiom_empty() ensures spec_empty().slen() == 0, spec_empty().is_boundary(0) { }
+pub proof fn arbitrary_empty() -> (r: Src) ensures r.slen() == 0, r.is_boundary(0) { axiom_empty(); spec_empty() }
 //@use prelude/tail.rs
